@@ -743,7 +743,7 @@ def install(eng):
     m(r'^(std|core)::f64::<impl f64>::is_nan$', lambda e, a, c: as_bool(z3.simplify(z3.fpIsNaN(a[0]))))
     m(r'^(std|core)::f64::<impl f64>::is_infinite$', lambda e, a, c: as_bool(z3.simplify(z3.fpIsInf(a[0]))))
     m(r'^(std|core)::f64::<impl f64>::is_finite$', lambda e, a, c: as_bool(z3.simplify(z3.Not(z3.Or(z3.fpIsInf(a[0]), z3.fpIsNaN(a[0]))))))
-    m(r'^(std|core)::f64::<impl f64>::to_bits$', lambda e, a, c: z3.fpToIEEEBV(a[0]))
+    m(r'^(std|core)::f64::<impl f64>::to_bits$', lambda e, a, c: __import__('mirsym.engine', fromlist=['fp_to_bits']).fp_to_bits(a[0]))
     m(r'^(std|core)::f64::<impl f64>::from_bits$', lambda e, a, c: z3.fpBVToFP(a[0], F64))
     m(r'^(std|core)::f64::<impl f64>::abs$', lambda e, a, c: z3.fpAbs(a[0]))
     m(r'^(std|core)::f64::<impl f64>::trunc$', lambda e, a, c: z3.fpRoundToIntegral(z3.RTZ(), a[0]))
